@@ -1034,3 +1034,61 @@ func ruleFilesAreCombined(c *core.Ctx) {
 			"Namespace."+f+" is assigned, not appended, when the files are combined: only the definitions of the last file (in sorted order) survive, so a model split over several files loses "+f)
 	}
 }
+
+// G5: inside the MATLAB back end the extents of a fixed array are listed in the same (reversed, column-major) order
+// wherever they are emitted: the serializer argument (matlab/binary.typeSerializer) and the default value of a field
+// (matlab/types.typeDefault). If the two disagree, a freshly constructed record has a field whose shape its own
+// serializer rejects or transposes.
+func ruleMatlabExtentOrderAgrees(c *core.Ctx) {
+	const rule = "G5"
+	c.Rule(rule, "matlab: every place that lists the extents of a fixed array (serializer argument, default value) fills its list with the same index expression over Array.Dimensions, and that expression is the reversed one", 2)
+	idxRe := regexp.MustCompile(`^assign:\w+\[(.*)\]$`)
+	var first string
+	n := 0
+	for _, site := range [][2]string{{"internal/matlab/binary", "typeSerializer"}, {"internal/matlab/types", "typeDefault"}} {
+		rows, d, _ := geeRows(c, site[0], site[1])
+		if d == nil {
+			c.Undecided(rule, "anchor/"+site[0]+"."+site[1], 0, "anchor not found")
+			continue
+		}
+		found := false
+		for _, r := range rows {
+			m := idxRe.FindStringSubmatch(r.Kind)
+			if m == nil && strings.HasPrefix(r.Kind, "append:") && len(r.Args) > 0 && strings.Contains(r.Args[0], "ArrayDimension.Length") {
+				// appended while walking the dimensions from the last to the first: the same order
+				for _, l := range r.Loop {
+					if l == "rrange Array.Dimensions" {
+						m = []string{"", "len(Array.Dimensions) - i - 1"}
+						r.Loop = append(append([]string(nil), r.Loop...), "range Array.Dimensions")
+						r.LoopIx = append(append([]string(nil), r.LoopIx...), "i")
+					}
+				}
+			}
+			if m == nil || !hasLoop(r, "Array.Dimensions") || len(r.Args) == 0 || !strings.Contains(r.Args[0], "ArrayDimension.Length") {
+				continue
+			}
+			found = true
+			n++
+			ix := strings.ReplaceAll(m[1], " ", "")
+			loopIx := ""
+			for li, l := range r.Loop {
+				if l == "range Array.Dimensions" && li < len(r.LoopIx) {
+					loopIx = r.LoopIx[li]
+				}
+			}
+			norm := strings.ReplaceAll(ix, loopIx, "i")
+			reversed := norm == "len(Array.Dimensions)-i-1" || norm == "len(Array.Dimensions)-1-i"
+			key := site[0] + "." + site[1] + "/fixed array extents"
+			c.Check(reversed, rule, key, r.Pos, "extent of dimension i goes to position n-1-i", "the extent list is filled at index `"+m[1]+"`: not the reversed order MATLAB's column-major layout needs (the other emission sites of the back end and the runtime use n-1-i)")
+			if first == "" {
+				first = norm
+			} else {
+				c.Check(norm == first, rule, key+"/same as the other sites", r.Pos, "same index expression as the other emission sites", "this site fills the extent list at `"+norm+"`, another site at `"+first+"`: default values and serializers of the same field disagree about its shape")
+			}
+		}
+		if !found {
+			c.Undecided(rule, site[0]+"."+site[1]+"/fixed array extents", d.Pos(), "no indexed assignment of extents inside a loop over Array.Dimensions found")
+		}
+	}
+	_ = n
+}
